@@ -379,6 +379,7 @@ type vfProbeRec struct {
 	Done    time.Duration // answer sent; -1 if never
 	Status  int           // 0 = refused / never answered
 	Refused bool
+	Path    string        // request URI of the probe (empty when refused)
 }
 
 type vfReqRec struct {
@@ -546,6 +547,7 @@ type vfCtl struct {
 	NoCT    bool   `json:"noct,omitempty"`
 	Fill    string `json:"fill,omitempty"` // with Size: the byte the body is made of (default "x")
 	Parts   int    `json:"parts,omitempty"` // with Size: written in this many flushed parts
+	Abort   bool   `json:"abort,omitempty"` // drop the connection instead of answering
 }
 
 func (c vfCtl) header() string {
@@ -569,7 +571,7 @@ func (tg *vfTarget) ServeHTTP(rw http.ResponseWriter, r *http.Request) {
 	if r.Method == http.MethodGet && r.Header.Get("User-Agent") == healthCheckUserAgent {
 		tg.mu.Lock()
 		step := tg.nextProbeStepLocked(true)
-		rec := &vfProbeRec{At: now, Done: -1}
+		rec := &vfProbeRec{At: now, Done: -1, Path: r.URL.RequestURI()}
 		tg.probes = append(tg.probes, rec)
 		tg.mu.Unlock()
 		status := step.Status
@@ -705,6 +707,10 @@ func (tg *vfTarget) ServeHTTP(rw http.ResponseWriter, r *http.Request) {
 	if !waitAll() {
 		finish(true)
 		return
+	}
+	if ctl.Abort {
+		finish(false)
+		panic(http.ErrAbortHandler)
 	}
 	if !ctl.NoCT {
 		rw.Header().Set("Content-Type", "application/json")
@@ -878,6 +884,15 @@ func vfSortedKeys[V any](m map[string]V) []string {
 		ks = append(ks, k)
 	}
 	sort.Strings(ks)
+	return ks
+}
+
+func vfSortedKeysFunc[K comparable, V any](m map[K]V, less func(a, b K) bool) []K {
+	ks := make([]K, 0, len(m))
+	for k := range m {
+		ks = append(ks, k)
+	}
+	sort.Slice(ks, func(i, j int) bool { return less(ks[i], ks[j]) })
 	return ks
 }
 
